@@ -47,7 +47,7 @@ Keys == {KInt(7), KInt(0), KInt(-1), KStr("name"), KStr("n12x"), KStr("plusnum")
 
 \* ---------------------------------------------------------------------------- JSON I-layer
 \* JSON tree: [j: "num" | "fnum" | "str" | "null" | "bool" | "arr" | "obj" | "ndobj"]
-IsFloatDt(dt) == dt \in {"float32", "float64"}
+IsFloatDt(dt) == dt \in {"float32", "float64", ">f4"}      \* (">f4", ">i2": non-native byte order)
 NumOf(dt, x) == IF IsFloatDt(dt) THEN [j |-> "fnum", i |-> x]
                 ELSE IF dt = "bool" THEN [j |-> "bool", b |-> (x # 0)] ELSE [j |-> "num", i |-> x]
 RECURSIVE Enc(_)
@@ -143,7 +143,7 @@ PickTsv == /\ "tsv" \in Modes /\ pc = "pick" /\ mode' = "tsv"
            /\ pc' = "done"
 \* two-column cluster tables: cluster id -> value (ints, floats written with repr, strings)
 SimpleIds == {0, 3, 41, 70000}
-SimpleCells == {CBig("b53p1"), CInt(3), CInt(-2), CFloat("f15"), CFloat("f123456"), CStr("good"), CStr("has_comma"), CStr("has_tab"), CStr("e5x")}
+SimpleCells == {CBig("b53p1"), CInt(3), CInt(-2), CFloat("f3em5"), CStr("has_newline"), CFloat("f15"), CFloat("f123456"), CStr("good"), CStr("has_comma"), CStr("has_tab"), CStr("e5x")}
 PickSimple == /\ "simple" \in Modes /\ pc = "pick" /\ mode' = "simple" /\ first' = "none"
               /\ \E S \in SUBSET SimpleIds : input' \in [S -> SimpleCells]
               /\ pc' = "done"
